@@ -353,6 +353,7 @@ fn replay(args: &Args) {
             tables.insert(history_key(&h.ops, &d), h.accepts.clone());
         }
     }
+    let mut recreate_reported = false;
     for (n, (b, h)) in cases.iter().zip(parsed.iter()).enumerate() {
         out.eval();
         let accepted: Vec<u32> = h.ops.iter().filter(|(_, ok)| *ok).map(|(o, _)| o.id).collect();
@@ -482,7 +483,9 @@ fn replay(args: &Args) {
                     };
                     match process(leaf, &op) {
                         Err(p) => viol(&mut out, "C33", "process-panics", format!("second create by {author}: {p}"), b.clone()),
+                        Ok(Ok(_)) if !expect && recreate_reported => out.count("violation:unauthorized-accepted:create-existing-group"),
                         Ok(Ok(after)) if !expect => {
+                            recreate_reported = true; // one report per run, the rest is counted
                             let before = members_view(leaf, G);
                             let now = members_view(&after, G);
                             viol(
